@@ -174,6 +174,8 @@ def decode(v: dict) -> Any:
 
 
 def string_value(g: L.G) -> str:
+    if g.p(0.06):
+        return g.pick(['copied to "C:\\"', '\\"', 'a\\\\', '\\\\', '"\\', 'x\\"y\\\\"', '\\n\\"'])
     if g.p(0.25):
         return ''.join(g.pick(L.HAZARD + ['\n', '\r', '\r\n', '\x08']) for _ in range(g.n(0, 6)))
     if g.p(0.1):
